@@ -514,9 +514,6 @@ type recStore struct {
 }
 
 func (s *recStore) Load() (*store.PersistedData, error) {
-	if s.inner != nil {
-		return s.inner.Load()
-	}
 	if s.initial != nil {
 		return s.initial, nil
 	}
